@@ -7,6 +7,10 @@ PROPOSED_PATCH = {k: list(v) for k, v in C19_PATCH.items()}
 PROPOSED_PATCH["daemon/proxyd.c"] = PROPOSED_PATCH["daemon/proxyd.c"] + [
     # F. a frame may fill every line of the buffer
     (r"assert\(p_buf->line_count < p_buf->max_lines\);", "assert(p_buf->line_count <= p_buf->max_lines);"),
+    # G. reference accounting follows the cursors: a client with frames still pending references the new frame too,
+    #    even if a service re-computation (norm change, other client's request) left it without granted services
+    (r"\(req->state == REQ_STATE_FORWARD\) &&\n(\s*)\(req->all_services != 0\) \)",
+     "(req->state == REQ_STATE_FORWARD) &&\n\\1((req->all_services != 0) || (req->p_sliced != NULL)) )"),
 ]
 
 M = ["c19_io.c"]
